@@ -20,6 +20,8 @@ fn main() {
             "C02" => c02::replay(&v["case"]),
             "C03" => c03::replay(&v["case"]),
             "C04" => c04::replay(&v["case"]),
+            "C05" => c05::replay(&v["case"]),
+            "C08" => c08::replay(&v["case"]),
             _ => machinery_error(&format!("no replay for property {id}")),
         };
         match r {
@@ -44,6 +46,8 @@ fn main() {
         "C02" => c02::run(tier),
         "C03" => c03::run(tier),
         "C04" => c04::run(tier),
+        "C05" => c05::run(tier),
+        "C08" => c08::run(tier),
         other => machinery_error(&format!("unknown property {other}")),
     }
 }
